@@ -189,7 +189,7 @@ void h_iv_timer_unregister(void)
 void iv_timer_unregister_expired__contract(struct iv_timer *_t)
 __CPROVER_requires(TM(_t)->index == 0 && WF_NODE(&TM(_t)->list_expired) && TM(_t)->list_expired.next != &TM(_t)->list_expired)
 __CPROVER_assigns(TM(_t)->index, TM(_t)->list_expired, TM(_t)->list_expired.prev->next, TM(_t)->list_expired.next->prev)
-__CPROVER_ensures(TM(_t)->index == -1)
+__CPROVER_ensures(TM(_t)->index == -1)	/* [C01,C04] afterwards the timer reads as unregistered (it can be registered again, and a second unregister is refused), also when it was waiting in the expired batch */
 __CPROVER_ensures(__CPROVER_old(TM(_t)->list_expired.prev)->next == __CPROVER_old(TM(_t)->list_expired.next) &&
 		  __CPROVER_old(TM(_t)->list_expired.next)->prev == __CPROVER_old(TM(_t)->list_expired.prev))	/* [C01] an already-expired timer is unlinked from the expired batch, so its handler is not called */
 __CPROVER_ensures(verif_st->numobjs == __CPROVER_old(verif_st->numobjs) && verif_st->num_timers == __CPROVER_old(verif_st->num_timers))	/* [C07] it was un-counted when it was popped */
